@@ -31,7 +31,7 @@
               `0 ≤ τ` follows, `threshold_nonneg`);
     `hrows` — the right table has fewer than 2⁴⁰ rows (precision limit of the double-precision arithmetic in
               `split_table` under which the chunks provably partition the table; not an enumeration bound);
-    `hres`  — the call returned the frame `fr` (it always does under `hv`, `htau`: `returns_frame`).
+    `hres`  — the call returned the frame `fr` (it does under `hv`, `htau` and `BodyOK`: `returns_frame`).
   Everything else is arbitrary: tables, out attributes, prefixes, `n_jobs`, cpu count, `allow_missing`,
   `out_sim_score`, the tokenizer flag, and (for `sound`, `once`) the tokenization function itself.
   For completeness the tokenizer must satisfy the q-gram count lemma (`complete_of_count`), which the q-gram tokenizer
@@ -82,11 +82,13 @@ theorem qualifies_dist_le (hv : validateJoin "EDIT_DISTANCE" a t = .ok (l, r)) (
     (h : qualED a.compOp tau s s' = true) : (lev s s' : Int) ≤ tau :=
   EntryED.qualED_dist_le a.compOp (operator_cases a t l r hv) tau s s' h
 
-/-- a validated call returns a frame -/
+/-- a validated call whose present join values are strings and whose output header has no `_id` column (`BodyOK`,
+    SSJ/Props/Common.lean) returns a frame; without `BodyOK` it raises TypeError resp. ValueError (`C15_body`) -/
 theorem returns_frame (hv : validateJoin "EDIT_DISTANCE" a t = .ok (l, r))
-    (htau : PyV.toInt (PyV.floor a.threshold) = .int tau) :
+    (htau : PyV.toInt (PyV.floor a.threshold) = .int tau)
+    (hb : BodyOK a.toTableArgs l r a.outSimScore) :
     ∃ fr, (editDistanceJoinPy a t toks cpu).result = .ok fr :=
-  EntryED.total a t toks cpu l r tau hv htau
+  EntryED.total a t toks cpu l r tau hv htau hb
 
 /-! ### SOUND -/
 
@@ -324,7 +326,7 @@ theorem ex_tau : PyV.toInt (PyV.floor exA.threshold) = .int 1 := by
     ("abc", "abd") — distance 1 ≤ ⌊1.5⌋, longer string of 3 ≥ 2·1 − 2 + 2 characters — is returned -/
 example : ∃ fr, (editDistanceJoinPy exA exT exToks 4).result = .ok fr ∧
     InResult exA exL exR fr [.int 1, .str "abc"] [.int 7, .str "abd"] ∧ (fr.rows.map rowKeys).Nodup := by
-  obtain ⟨fr, hfr⟩ := returns_frame exA exT exToks 4 exL exR 1 ex_valid ex_tau
+  obtain ⟨fr, hfr⟩ := returns_frame exA exT exToks 4 exL exR 1 ex_valid ex_tau (by decide +kernel)
   refine ⟨fr, hfr, ?_, once exA exT exToks 4 exL exR fr 1 ex_valid ex_tau (by decide) hfr⟩
   obtain ⟨row, hrow, hk, -⟩ := padded_long_pairs_complete exA exT exToks 4 exL exR fr 1 ex_valid ex_tau (by decide) hfr
     (by decide) (fun _ => rfl) [.int 1, .str "abc"] [.int 7, .str "abd"] (by decide) (by decide)
